@@ -79,4 +79,9 @@ def run(ctx, chk):
                                lambda t: an.is_call(t, getter, (F(P(1), INV), P(2))),
                                {"Some(Some)": "Ok(clone)", "Some(None)": "Err(AmbiguousCodon)", "None": "Err(InvalidAmino)"})
             n += 1
+    import core
+    for cfg in ctx.configs(need_all_features=True):
+        chk.cfg = cfg.name
+        # HashMap<Seq,_>::get(&SeqSlice) needs Seq and SeqSlice to hash and compare by content, and Borrow to be the content view
+        core.import_rows(chk, cfg, "C02", "props.C02", ("S-hash", "S-eq", "S-borrow"))
     chk.floor("codon table rows", n, 3 * max(1, len(chk.configs)))
